@@ -19,7 +19,8 @@ func init() {
 			"(R2) each of those mutators changes totalSizeBytes by exactly the change of the sum (effect summaries per path: ApplyDelta, ApplyDeltasReverse, setKV, setNewKV; Load assigns kv and size from the same Unmarshal result); " +
 			"(R3) setNewKV (which adds len(k)+len(v) unconditionally) is only called on a key proven absent by a dominating `_, found := b.kv[k]` with found == false on the same key; " +
 			"(R4) the deltas handed to ApplyDelta carry the value found just before as OldValue and CREATE only when absent (shared with C08.R4); " +
-			"(R5) in ApplyDelta the limit comparison follows every growth and its exceeding branch panics.",
+			"(R5) in ApplyDelta the limit comparison follows every growth and its exceeding branch panics; " +
+			"(R6) the deltas recorded for a not-yet-final block are forgotten on every success path of the undo, stalled and final handlers, so a block re-applied after a flip-back is never reversed twice.",
 		NotCovered:  "\"rejected exactly when\" across merges (Merge applies no limit test), uint64 wrap-around, PartialKV.Roll which replaces kv without resetting the size (allowed with reason: the partial is not used after its roll).",
 		Assumptions: []string{"the marshaller's Unmarshal returns the recounted size (C18.R3)", "map values are not mutated in place after insertion (byte slices are cloned at the recorders)"},
 	})
@@ -171,6 +172,9 @@ func runC11(p *core.Prog, r *core.Report) {
 			core.Undecide("ApplyDelta: fewer than two kv writes found")
 		}
 	})
+
+	// ---- R6 a block's deltas are reversed at most once per application (shared with C03.R3)
+	checkReversibleForgotten(p, r, "C11.R6")
 
 	r.MinInstances("C11.R1", 10)
 	r.MinInstances("C11.R2", 12)
